@@ -8,6 +8,8 @@ args = sys.argv[1:]
 tier = 'quick'; seed = os.environ.get('VERIF_SEED', '1')
 if '--tier' in args: i = args.index('--tier'); tier = args[i+1]; del args[i:i+2]
 if '--seed' in args: i = args.index('--seed'); seed = args[i+1]; del args[i:i+2]
+fams = []
+while '--fam' in args: i = args.index('--fam'); fams.append(args[i+1].split()); del args[i:i+2]   # --fam "ilu 20000 1 asan ty=d": ./check fam ... on the patched tree
 patch = os.path.abspath(args[0]); props = args[1:]
 wt = '/tmp/seedrepo-%d' % os.getpid()
 subprocess.run(['git', '-C', '/repo', 'worktree', 'add', '--detach', '-q', wt], check=True)
@@ -18,6 +20,9 @@ try:
     r = subprocess.run(['git', '-C', wt, 'apply', patch], capture_output=True, text=True)
     if r.returncode: print('PATCH DOES NOT APPLY:', r.stderr); sys.exit(2)
     env = dict(os.environ, VERIF_REPO=wt, VERIF_SEED=seed, VERIF_EVIDENCE_DIR=os.path.join(ROOT, '.work', 'seed-evidence'))
+    for fa in fams:
+        r = subprocess.run([os.path.join(ROOT, 'check'), 'fam'] + fa, capture_output=True, text=True, env=env, cwd=ROOT)
+        print('== fam %s exit=%d' % (' '.join(fa), r.returncode)); print(r.stdout[-3000:])
     for p in props:
         r = subprocess.run([os.path.join(ROOT, 'check'), 'run', p, '--tier', tier], capture_output=True, text=True, env=env, cwd=ROOT)
         lines = [l for l in r.stdout.split('\n') if l.startswith(('VIOLATION', 'KNOWN-FINDING', p))]
